@@ -624,6 +624,11 @@ class ExtendedIndexedOperand(Operand):
                     size += 2 if is_wide else 1
                     max_size = size
                     raw_post_byte |= 0x9D if is_wide else 0x9C
+            elif additional_needs_resolution:
+                # A label as the offset: its address is known later, reserve the 16-bit offset
+                raw_post_byte |= 0x99
+                size += 2
+                max_size = size
             else:
                 if additional.is_negative():
                     if additional.is_8_bit():
@@ -759,6 +764,11 @@ class IndexedOperand(Operand):
                     size += 2 if is_wide else 1
                     max_size = size
                     raw_post_byte |= 0x8D if is_wide else 0x8C
+            elif additional_needs_resolution:
+                # A label as the offset: its address is known later, reserve the 16-bit offset
+                raw_post_byte |= 0x89
+                size += 2
+                max_size = size
             else:
                 if additional.is_negative():
                     if additional.is_4_bit():
